@@ -1659,8 +1659,9 @@ fn process_stream_search_params<T: Read + Write>(
         }
         i += 1;
     }
+    // i is already the idx of the first msg not checked yet
     let next_search_idx = if i < stream_msgs_len {
-        Some(i + 1)
+        Some(i)
     } else {
         None
     };
